@@ -1177,7 +1177,9 @@ class SVG:
         g = etree.Element(f"{{{svgns()}}}g")
         g.extend(svg)
 
-        if viewport != viewbox:
+        if "viewBox" in svg.attrib:
+            # also when viewBox and viewport coincide: the mapping is then the
+            # identity, not a translation by (x, y)
             preserve_aspect_ratio = svg.attrib.get("preserveAspectRatio", "xMidYMid")
             transform = Affine2D.rect_to_rect(viewbox, viewport, preserve_aspect_ratio)
         else:
